@@ -86,6 +86,15 @@ func Start(prop, level string) *Run {
 			os.Exit(3)
 		}
 	}
+	// per-property fragments (same format) next to the main file
+	if buf, err := os.ReadFile(filepath.Join(Root(), "known_findings.d", prop+".json")); err == nil {
+		var extra findingsFile
+		if err := json.Unmarshal(buf, &extra); err != nil {
+			fmt.Printf("ERROR: known_findings.d/%s.json unreadable: %v\n", prop, err)
+			os.Exit(3)
+		}
+		ff.Findings = append(ff.Findings, extra.Findings...)
+	}
 	for _, f := range ff.Findings {
 		if f.Property == prop && f.Status == "open" {
 			r.open[f.Key] = f
